@@ -307,6 +307,15 @@ func run(c *runner.Ctx) {
 	}
 	cars = append(cars,
 		carrierFn{string(carrier.MapRMEdited), anyV, viaCarrierFn(carrier.MapRMEdited)},
+		carrierFn{string(carrier.MapLocalFn), anyV, viaCarrierFn(carrier.MapLocalFn)},
+		carrierFn{string(carrier.UrlLocalFn), strEnc, viaCarrierFn(carrier.UrlLocalFn)},
+		carrierFn{string(carrier.VarLocalFn), anyV, viaCarrierFn(carrier.VarLocalFn)},
+		carrierFn{string(carrier.StructAfterAbandoned), anyV, func(v reflect.Value, rl string) error {
+			if !carrier.TagOK(rl) {
+				return tagRun(v, rl)
+			}
+			return viaCarrierFn(carrier.StructAfterAbandoned)(v, rl)
+		}},
 		carrierFn{string(carrier.StructRMEdited), anyV, viaCarrierFn(carrier.StructRMEdited)},
 		carrierFn{string(carrier.UrlRMEdited), strEnc, viaCarrierFn(carrier.UrlRMEdited)},
 		carrierFn{string(carrier.VarWrappers), anyV, viaCarrierFn(carrier.VarWrappers)},
